@@ -301,6 +301,9 @@ class SgzConverter(SgzReader):
             spec.samples = self.zslices
             spec.tracecount = self.tracecount
 
+        # The format code may have to be patched below, for the export only: the reader keeps what the file holds
+        stored_headerbytes = self.headerbytes
+
         # seimcic-zfp stores the binary header from the source SEG-Y file.
         # In case someone forgot to do this, give them IBM float
         data_sample_format_code = int.from_bytes(
@@ -318,7 +321,10 @@ class SgzConverter(SgzReader):
         spec.ext_headers = max(0, int.from_bytes(
             self.headerbytes[DISK_BLOCK_BYTES+3504: DISK_BLOCK_BYTES+3506], byteorder='big', signed=True))
 
-        self.write_segy(spec, out_file)
+        try:
+            self.write_segy(spec, out_file)
+        finally:
+            self.headerbytes = stored_headerbytes
 
     def write_segy(self, spec, out_file):
 
